@@ -6,6 +6,7 @@ CONSTANTS
   SlotType <- GenSlotTypeBB
   MaxExplicit = 0
   Policy <- GenPolicy
+  Layout <- GenLayout
   MemberTypes <- MembersDerived
 INVARIANTS TypeOK Conservation AliveIffReferenced NoDangling StaticTypes
 PROPERTIES GLastAgrees
